@@ -48,6 +48,8 @@ SETTINGS = {
     "S1": {"mfp": 200.0, "thickness": 6.0},
     "S2": {"mfp": 5000.0, "thickness": 14.0},
 }
+SINGLET_SETTINGS = {"S0": {"mfp": 100.0, "thickness": 20.0}, "S1": {"mfp": 100.0, "thickness": 12.0},
+                    "S2": {"mfp": 50.0, "thickness": 25.0}}
 BAG_SETTINGS = {"S0": {"mfp": 50.0, "thickness": 5.0}, "S1": {"mfp": 20.0, "thickness": 4.0},
                 "S2": {"mfp": 50.0, "thickness": 7.0}}
 SETUP_CFG = {"phaseTracerTol": 1e-8}
@@ -179,7 +181,7 @@ class ManagerMachine(Machine):
     POSSIBLE_BIGRAMS = len(OPS) * (len(OPS) + 1)
 
     # ------------------------------------------------------------------ config
-    THEMES = ("history", "labelling", "offeq", "lowT", "bag", "mixed")
+    THEMES = ("history", "labelling", "offeq", "lowT", "bag", "mixed", "singlet")
 
     @staticmethod
     def drawConfig(rng: random.Random, tier: str) -> dict:
@@ -187,7 +189,7 @@ class ManagerMachine(Machine):
         (model, point, configuration, operation) space, so that a small batch still
         reaches each outcome class and each kind of history several times"""
         theme = rng.choice(ManagerMachine.THEMES)
-        kind = "bag" if theme == "bag" else "yukawa"
+        kind = {"bag": "bag", "singlet": "singlet"}.get(theme, "yukawa")
         pts = fixtures.POINTS[kind]
         weights = {"setup": 1, "lte": 1, "solve": 3, "detonation": 1, "hydro": 1, "thermo": 1,
                    "config": 1, "colldir": 0, "new_model": 1, "arm": 1}
@@ -214,6 +216,9 @@ class ManagerMachine(Machine):
         elif theme == "bag":
             variants = ["V0", "V1"]
             weights.update(detonation=2, arm=1, colldir=0)
+        elif theme == "singlet":
+            variants = ["V0", rng.choice(["V1", "V3", "V7"])]
+            weights.update(hydro=2, lte=2, detonation=1, config=1, arm=1, colldir=0)
         else:
             variants = ["V0"] + rng.sample(pool, 2)
             offEq = rng.random() < 0.3
@@ -397,7 +402,7 @@ class ManagerMachine(Machine):
                                      fieldValueVariationScale=pts["fscale"]))
 
     def _settings(self, name: str, offEq: bool, history: bool = False) -> Any:
-        table = BAG_SETTINGS if self.kind == "bag" else SETTINGS
+        table = {"bag": BAG_SETTINGS, "singlet": SINGLET_SETTINGS}.get(self.kind, SETTINGS)
         s = table[name]
         if history and self.cfg.get("reuseSettingsObject"):
             if self.settingsObj is None:
@@ -542,7 +547,7 @@ class ManagerMachine(Machine):
     def _profileResidual(self, mgr: Any, rec: dict) -> dict | None:
         """3b: returned profiles reproduce the hydrodynamic boundary constants"""
         obs = rec["obs"]
-        if self.kind != "yukawa" or "results" in obs or not obs["success"] \
+        if self.kind not in ("yukawa", "singlet") or "results" in obs or not obs["success"] \
                 or not _finiteVelocity(obs) or obs["hasOutOfEquilibrium"]:
             return None
         if not self._solveCfg(self.variant)["conserve"]:
@@ -563,13 +568,17 @@ class ManagerMachine(Machine):
         vevLow = W.Fields(fieldsArr[0])
         vevHigh = W.Fields(fieldsArr[-1])
         fields, dphi = eom.wallProfile(eom.grid.xiValues, vevLow, vevHigh, params)
-        phi = np.asarray(fields)[:, 0]
-        dphi = np.asarray(dphi)[:, 0]
         pot = mgr.model.getEffectivePotential()
-        w = -T * pot.dVdT(phi, T)
+        fa, da = np.asarray(fields), np.asarray(dphi)
+        if self.kind == "yukawa":
+            w = -T * pot.dVdT(fa[:, 0], T)
+            veff = pot.exact(fa[:, 0], T)
+        else:
+            w = -T * pot.dVdT2(fa[:, 0], fa[:, 1], T)
+            veff = pot.exact2(fa[:, 0], fa[:, 1], T)
         g2 = 1 / (1 - v**2)
         T30 = w * g2 * v
-        T33 = 0.5 * dphi**2 - pot.exact(phi, T) + w * g2 * v**2
+        T33 = 0.5 * np.sum(da**2, axis=1) - veff + w * g2 * v**2
         return {"energy": float(np.max(np.abs(T30 / c1 - 1))),
                 "momentum": float(np.max(np.abs(T33 - c2)) / abs(c2))}
 
